@@ -1,4 +1,4 @@
-CONSTANTS MaxN = 5  KeyTop = 3
+CONSTANTS MaxN = 4  KeyTop = 3
 SPECIFICATION Spec
 INVARIANT PredicatesSound
 CHECK_DEADLOCK FALSE
